@@ -22,6 +22,9 @@ MARKERS = ['INSTANCE-PATH', 'THISCOMPONENT', 'PRODUCERNAME', 'stage7', 'stage8']
 # ('direct-DIR/...' is a path the developer wrote on the command line: part of the arguments, not a name)
 
 
+CONTENTS = [b'contents', b'contents written later']
+
+
 def flatten(v):
     if isinstance(v, dict):
         return ' '.join(flatten(k) + ' ' + flatten(x) for k, x in v.items())
@@ -35,6 +38,7 @@ class ComputeInfo(Target):
     name = 'ComponentSpecification._compute_memoization_info'
     file = G
     qualname = 'ComponentSpecification._compute_memoization_info'
+    inline_class = {'this': (G, 'ComponentSpecification')}
     pure = ('re.compile', 're.sub', 're.escape')
     max_paths = 50000
     trusted = ["md5 of a file is a function of its contents", "FlowIR.discover_reference_strings finds the reference spellings "
@@ -98,33 +102,30 @@ class ComputeInfo(Target):
                    resourceManager=rm)
         return State(args=[this], kwargs={'fuzzy': fuzzy}, fuzzy=fuzzy, produced=produced, state=state, mention=mention,
                      method=method, backend=backend, loc_fail=loc_fail, abs_ref=abs_ref, rel_ref=rel_ref, location=location,
-                     whole_dir=whole_dir, prod_hash=prod_hash)
+                     whole_dir=whole_dir, prod_hash=prod_hash, version=[0], this=this)
 
     def externs(self, c, st):
         def discover(c, arguments, stage, comp_ids, out_map):
             for r in (st.abs_ref, st.rel_ref):
                 if r in arguments:
                     out_map[r] = r
-        return {'os.path.exists': Extern('os.path.exists', lambda c, p: st.state != 'missing'),
+        def open_(c, path, mode='r', *a, **k):
+            # the referenced file, read in chunks by the real md5_of_file closure; its CONTENTS can change between calls
+            left = [CONTENTS[st.version[0]]]
+
+            def read(c, n=-1):
+                data, left[0] = left[0], b''
+                return data
+            f = Obj('rfile', read=Extern('file.read', read))
+            f.__enter__ = Extern('file.__enter__', lambda c: f)
+            f.__exit__ = Extern('file.__exit__', lambda c, *e: None)
+            return f
+        return {'open': Extern('open', open_),
+                'os.path.exists': Extern('os.path.exists', lambda c, p: st.state != 'missing'),
                 'os.path.isdir': Extern('os.path.isdir', lambda c, p: st.state == 'directory'),
                 'os.path.isfile': Extern('os.path.isfile', lambda c, p: st.state == 'file'),
                 'experiment.model.frontends.flowir.FlowIR.discover_reference_strings': Extern('discover_reference_strings', discover),
                 'traceback.format_exc': Extern('format_exc', lambda c: 'tb')}
-
-    def local_overrides(self, c, st):
-        return {'md5_of_file': Extern('md5_of_file', lambda c, path: hashlib.md5(b'contents').hexdigest(), native_passthrough=False)}
-
-    def run_native(self, ctx, st):
-        # natively md5_of_file is a nested closure that opens the file: give it a real file with fixed contents
-        import os, tempfile
-        from unittest import mock
-        real_open = open
-
-        def fake_open(path, mode='r', *a, **k):
-            import io
-            return io.BytesIO(b'contents')
-        with mock.patch.dict(self.module()[1], {'open': fake_open}):
-            return Target.run_native(self, ctx, st)
 
     def ensures(self, c, st, out):
         # a producer without a hash is a missing input of everything that reads its directory: no record (None or an error)
@@ -148,6 +149,15 @@ class ComputeInfo(Target):
             tok = '%s:%s:%s' % ('fuzzy' if st.fuzzy else 'producer', 'PRODHASH-FUZZY' if st.fuzzy else 'PRODHASH-STRONG', st.method)
             cl.append(('a-directory-reference-is-replaced-by-the-producers-hash', r['command']['arguments'] == 'run --in %s --flag' % tok))
             cl.append(('a-directory-reference-adds-no-file-entry', r['files'] == []))
+        if st.state == 'file' and not st.fuzzy and st.loc_fail == 'ok':
+            # the hash follows the CURRENT contents: asking the same object again after the file was rewritten gives the
+            # record of the new contents (no digest survives from an earlier request)
+            st.version[0] = 1
+            again = st.this._compute_memoization_info(st.fuzzy)
+            st.version[0] = 0
+            md5_later = hashlib.md5(CONTENTS[1]).hexdigest()
+            cl.append(('a-later-request-hashes-the-current-contents',
+                       isinstance(again, dict) and again.get('files') == ['%s:%s' % (md5_later, st.method)]))
         if st.state == 'file':
             if not st.fuzzy:
                 want_files = ['%s:%s' % (md5, st.method)]
